@@ -57,7 +57,8 @@ def gen_world(rng, tag, n_classes=8, with_ignore=False, ser_name="_serialize", i
             rest = [n for n in names if n not in params and rng.random() < 0.5]
             d = W.cdesc(cid, rng.choice(["ser_list", "ser_dict"]), module, name, bases=[b for b in bases if by(built, b)["kind"] == "dict"],
                         params=[p for p in params if p not in inherited],
-                        defaults=[(W.mangle(name, n), rand_json(rng, 1)) for n in rest], ser_name=ser_name)
+                        defaults=[(W.mangle(name, n), rand_json(rng, 1)) for n in rest],
+                        ser_name=(rng.choice([ser_name, "_custom_ser"]) if with_ignore else ser_name))
         if with_ignore and d["kind"] in ("dict", "slot") and rng.random() < 0.5:
             cand = all_field_names(None, built, d) + ["zz"]
             d["ign"] = (ign_name if rng.random() < 0.8 else "_other_ignore", rng.sample(cand, rng.randint(0, min(3, len(cand)))))
@@ -182,3 +183,70 @@ def rand_top(rng, descs, depth):
     if r < 0.65:
         return W.Dec(rng.choice(["1.5", "0", "-2"]))
     return rand_container(rng, descs, depth)
+
+
+# ------------------------------------------------------------------ C20: customisation
+
+def rand_custom_field_value(rng, descs, depth):
+    """field values for C20: supported ones, plus beans / enum members / Decimals / library objects /
+    functions held directly (neither supported nor -- unless a handler says so -- handled)"""
+    r = rng.random()
+    if r < 0.12:
+        return W.Opaque(rng.randint(0, 2))
+    if r < 0.24 and depth > 0:
+        return rand_custom_instance(rng, descs, depth - 1)
+    if r < 0.3:
+        e = rng.choice([d for d in descs if d["kind"] == "enum"])
+        return W.EnumV(e["cid"], rng.choice(e["members"]))
+    if r < 0.34:
+        return W.Dec("2.5")
+    if depth <= 0 or r < 0.65:
+        return rng.choice(LEAVES + ["a", "b", "zz", "_p"])
+    return rand_custom_container(rng, descs, depth)
+
+
+def rand_custom_container(rng, descs, depth):
+    r = rng.random()
+    n = rng.randint(0, 3)
+    if r < 0.4:
+        return [rand_custom_value(rng, descs, depth - 1) for _ in range(n)]
+    if r < 0.6:
+        return tuple(rand_custom_value(rng, descs, depth - 1) for _ in range(n))
+    if r < 0.68:
+        return set(rng.sample([1, "s", 2.5, (1, 2), False], n))
+    return {k: rand_custom_value(rng, descs, depth - 1) for k in rng.sample(JSON_KEYS, n)}
+
+
+def rand_custom_value(rng, descs, depth):
+    r = rng.random()
+    if depth <= 0 or r < 0.3:
+        return rng.choice(LEAVES)
+    if r < 0.65:
+        return rand_custom_instance(rng, descs, depth)
+    if r < 0.7:
+        return W.Dec("2.5")
+    return rand_custom_container(rng, descs, depth)
+
+
+def rand_custom_instance(rng, descs, depth):
+    cands = [d for d in descs if d["kind"] in ("dict", "slot", "ser_list", "ser_dict")]
+    d = rng.choice(cands)
+    cid = d["cid"]
+    if d["kind"] == "slot":
+        keys = ctor_keys(cid, descs) + [s for s in slot_names(cid, descs) if s not in ctor_keys(cid, descs)]
+        return W.Inst(cid, [(k, rand_custom_field_value(rng, descs, depth - 1)) for k in keys])
+    keys = ctor_keys(cid, descs)
+    if d["kind"].startswith("ser"):
+        fields = [(k, rand_json(rng, 2)) for k in keys]
+        if rng.random() < 0.5:
+            fields.append(("extra", rand_json(rng, 2)))
+        return W.Inst(cid, fields)
+    fields = [(k, rand_custom_field_value(rng, descs, depth - 1)) for k in keys]
+    for k in rng.sample(["extra", "_x2", "zz"], rng.randint(0, 2)):
+        if k not in keys:
+            fields.append((k, rand_custom_field_value(rng, descs, depth - 1)))
+    if rng.random() < 0.12:
+        # an ignore list held by the instance itself
+        names = [k for k, _ in fields]
+        fields.append((rng.choice(["_ignore", "_other_ignore"]), rng.sample(names + ["nope"], rng.randint(0, min(2, len(names) + 1)))))
+    return W.Inst(cid, fields)
